@@ -29,6 +29,11 @@ pub open spec fn legal_edge(from: FlowPhase, to: FlowPhase) -> bool {
 pub open spec fn sat_inc(x: u32) -> u32 { if x == u32::MAX { x } else { (x + 1) as u32 } }
 
 impl UdpFlow {
+    // who the flow talks to: fixed for the life of the flow by everything in this file
+    pub open spec fn same_peers(&self, o: &UdpFlow) -> bool {
+        self.client == o.client && self.backend_addr == o.backend_addr && self.backend_id == o.backend_id && self.config == o.config
+            && self.pending_payload == o.pending_payload
+    }
     pub open spec fn spec_requests_exhausted(&self) -> bool { self.config.requests != 0 && self.requests_seen >= self.config.requests }
     pub open spec fn spec_responses_exhausted(&self) -> bool { self.config.responses != 0 && self.responses_seen >= self.config.responses }
 
@@ -40,6 +45,7 @@ impl UdpFlow {
     //@    final(self).idle_deadline == spec_instant_add(now, timeout),                                 // [deadline-pushed-back]
     //@    final(self).phase == old(self).phase && final(self).requests_seen == old(self).requests_seen
     //@      && final(self).responses_seen == old(self).responses_seen && final(self).config == old(self).config, // [frame]
+    //@    final(self).same_peers(old(self)) && final(self).first_upstream_pending == old(self).first_upstream_pending, // [peers-untouched]
     //@end
 
     //@fn lib/src/protocol/udp/flow.rs UdpFlow::on_client_datagram
@@ -51,6 +57,7 @@ impl UdpFlow {
     //@    final(self).responses_seen == old(self).responses_seen && final(self).phase == old(self).phase, // [frame]
     //@    old(self).spec_requests_exhausted() ==> final(self).spec_requests_exhausted(),              // [exhausted-cap-stays-exhausted]
     //@    final(self).timer_gen != old(self).timer_gen,                                                // [generation-invalidated]
+    //@    final(self).same_peers(old(self)) && final(self).first_upstream_pending == old(self).first_upstream_pending, // [peers-untouched]
     //@end
 
     //@fn lib/src/protocol/udp/flow.rs UdpFlow::on_backend_datagram
@@ -62,6 +69,7 @@ impl UdpFlow {
     //@    final(self).requests_seen == old(self).requests_seen && final(self).phase == old(self).phase, // [frame]
     //@    old(self).spec_responses_exhausted() ==> final(self).spec_responses_exhausted(),            // [exhausted-cap-stays-exhausted]
     //@    final(self).timer_gen != old(self).timer_gen,                                                // [generation-invalidated]
+    //@    final(self).same_peers(old(self)) && final(self).first_upstream_pending == old(self).first_upstream_pending, // [peers-untouched]
     //@end
 
     //@fn lib/src/protocol/udp/flow.rs UdpFlow::set_phase
@@ -70,6 +78,7 @@ impl UdpFlow {
     //@  ensures
     //@    final(self).phase == next,                                                                   // [phase-set]
     //@    final(self).requests_seen == old(self).requests_seen && final(self).responses_seen == old(self).responses_seen, // [frame]
+    //@    final(self).same_peers(old(self)) && final(self).first_upstream_pending == old(self).first_upstream_pending && final(self).timer_gen == old(self).timer_gen, // [peers-untouched]
     //@end
 
     //@fn lib/src/protocol/udp/flow.rs UdpFlow::requests_exhausted
@@ -97,6 +106,7 @@ impl UdpFlow {
     //@    old(self).config.send_proxy_protocol && !old(self).config.proxy_protocol_every_datagram ==>
     //@        (r == old(self).first_upstream_pending && !final(self).first_upstream_pending),          // [first-datagram-only-exactly-once]
     //@    final(self).config == old(self).config,                                                      // [frame]
+    //@    final(self).same_peers(old(self)) && final(self).phase == old(self).phase && final(self).requests_seen == old(self).requests_seen && final(self).responses_seen == old(self).responses_seen, // [peers-and-counters-untouched]
     //@end
 }
 
